@@ -503,11 +503,48 @@ func (r *runner) runtimePasswordProbe(password string) {
 	for _, c := range [][]string{{"PING"}, {"GET", "fleet", "truck1"}, {"SET", "fleet", "early", "POINT", "1", "1"}, {"SCAN", "fleet", "IDS"}, {"EVAL", "return 1", "0"}} {
 		used.Do(c...)
 	}
+	// streaming connections opened while no password was configured
+	subc, e1 := dial(s.Addr())
+	livec, e2 := dial(s.Addr())
+	monc, e3 := dial(s.Addr())
+	if e1 == nil && e2 == nil && e3 == nil {
+		defer subc.Close()
+		defer livec.Close()
+		defer monc.Close()
+		admin.Do("SETCHAN", "rtchan", "NEARBY", "fleet", "FENCE", "POINT", "33", "-112", "100000")
+		subc.Send("SUBSCRIBE", "rtchan")
+		subc.RecvTimeout(2 * time.Second)
+		livec.Send("NEARBY", "fleet", "FENCE", "POINT", "33", "-112", "100000")
+		livec.RecvTimeout(2 * time.Second)
+		monc.Send("MONITOR")
+		monc.RecvTimeout(2 * time.Second)
+	}
 	if rp, err := admin.Do("CONFIG", "SET", "requirepass", password); err != nil || rp.IsErr() {
 		ctx.Inconclusive("runtime password probe: CONFIG SET requirepass failed")
 		return
 	}
 	admin.Do("AUTH", password)
+	if e1 == nil && e2 == nil && e3 == nil {
+		admin.Do("SET", "fleet", "secret-after-password", "POINT", "33", "-112")
+		for name, sc := range map[string]*respc.Conn{"subscribed-before": subc, "live-fence-before": livec, "monitor-before": monc} {
+			leaked := ""
+			for {
+				rp, err := sc.RecvTimeout(700 * time.Millisecond)
+				if err != nil {
+					break
+				}
+				if strings.Contains(rp.String(), "secret-after-password") {
+					leaked = trunc(rp.String(), 160)
+				}
+			}
+			ctx.Eval(1)
+			ctx.Distinct("runtime-password|" + name)
+			if leaked != "" {
+				ctx.Violation("auth:open-stream-kept-access:"+name, fmt.Sprintf("a connection that went live before `CONFIG SET requirepass` (%s; never authenticated) received data produced afterwards: %s", name, leaked),
+					map[string]any{"connection": name, "received": leaked})
+			}
+		}
+	}
 	before, err := dump.Take(s.Addr(), dump.Opts{Password: password})
 	if err != nil {
 		ctx.Inconclusive("runtime password probe: " + err.Error())
